@@ -30,7 +30,8 @@ def run(tier):
     try:
         lx = snapcheck.generate(drv, d, plans_exact)
         lf = snapcheck.generate(drv, d, plans_f8)
-        ld = snapcheck.generate(drv, d, plans_deep)
+        ld = snapcheck.generate(drv, d, plans_deep[:1])
+        lsw = snapcheck.generate(drv, d, plans_deep[1:])
     finally:
         vlib.rm(d)
     # synthetic grids: exact centres (ProjectionExact) for tile widths 1..256
@@ -66,8 +67,12 @@ def run(tier):
         else:
             raise Broken("RealTrace strict on %s: %s" % (name, r.error))
     # (4) ids deeper than level 32: finding F9 (no coordinates come back at all)
-    r4 = snapcheck.validate(PROP, "RealTrace_C06.cfg", ld, v, drv, classify=classify, module="RealTrace")
-    allrecs = lx + lf + ld
+    r4 = snapcheck.validate(PROP, "RealTrace_C06.cfg", ld + lsw, v, drv, classify=classify, module="RealTrace")
+    # (5) a deep id together with shallower ones where the deep id works: every returned coordinate within the reported deviation
+    r5 = snapcheck.validate(PROP, "RealTrace_C03loose.cfg", [x for x in lsw if json.loads(x)["out"] == "ok"], v, drv, module="RealTrace")
+    r4["states"] += r5["states"]
+    r4["transitions"] += r5["transitions"]
+    allrecs = lx + lf + ld + lsw
     sets = {}
     ids = {}
     npts = 0
